@@ -74,6 +74,13 @@ def _store_records(ctx, d, rng, k, rid0):
     ds['tf'] = rng.randint(1, 9, size=(nrows, nloc_t)).astype(float)
     ds['tfrows'] = rows
     ds['ind_dtype'] = [np.uint32, np.int32, np.int64][k % 3]
+    if k % 4 >= 2:
+        # a curated assignment (spikes moved to other existing ids, a merge into a new id): features are stored per
+        # TEMPLATE, the clusters of the spikes play no role
+        sc = np.array(ds['st'])
+        sc[rng.rand(ns) < 0.4] = int(rng.randint(0, nt))
+        sc[rng.rand(ns) < 0.2] = nt
+        ds['sc'] = sc
     shutil.rmtree(d / 'f', ignore_errors=True)
     p = D.write_dataset(d / 'f', ds)
     m = D.load(p)
